@@ -66,9 +66,9 @@ type mEnc struct {
 	b *bytes.Buffer
 }
 
-func newMEnc() *mEnc                  { b := &bytes.Buffer{}; return &mEnc{mhpack.NewEncoder(b), b} }
-func (m *mEnc) SetMax(v uint32)       { m.e.SetMaxDynamicTableSize(v) }
-func (m *mEnc) SetLimit(v uint32)     { m.e.SetMaxDynamicTableSizeLimit(v) }
+func newMEnc() *mEnc              { b := &bytes.Buffer{}; return &mEnc{mhpack.NewEncoder(b), b} }
+func (m *mEnc) SetMax(v uint32)   { m.e.SetMaxDynamicTableSize(v) }
+func (m *mEnc) SetLimit(v uint32) { m.e.SetMaxDynamicTableSizeLimit(v) }
 func (m *mEnc) Encode(l []hf) []byte {
 	m.b.Reset()
 	for _, f := range l {
@@ -84,9 +84,9 @@ type xEnc struct {
 	b *bytes.Buffer
 }
 
-func newXEnc() *xEnc                  { b := &bytes.Buffer{}; return &xEnc{xhpack.NewEncoder(b), b} }
-func (m *xEnc) SetMax(v uint32)       { m.e.SetMaxDynamicTableSize(v) }
-func (m *xEnc) SetLimit(v uint32)     { m.e.SetMaxDynamicTableSizeLimit(v) }
+func newXEnc() *xEnc              { b := &bytes.Buffer{}; return &xEnc{xhpack.NewEncoder(b), b} }
+func (m *xEnc) SetMax(v uint32)   { m.e.SetMaxDynamicTableSize(v) }
+func (m *xEnc) SetLimit(v uint32) { m.e.SetMaxDynamicTableSizeLimit(v) }
 func (m *xEnc) Encode(l []hf) []byte {
 	m.b.Reset()
 	for _, f := range l {
@@ -99,9 +99,9 @@ func (m *xEnc) Encode(l []hf) []byte {
 
 type mDec struct{ d *mhpack.Decoder }
 
-func newMDec() *mDec                  { return &mDec{mhpack.NewDecoder(4096, nil)} }
-func (m *mDec) SetMax(v uint32)       { m.d.SetMaxDynamicTableSize(v) }
-func (m *mDec) SetAllowed(v uint32)   { m.d.SetAllowedMaxDynamicTableSize(v) }
+func newMDec() *mDec                { return &mDec{mhpack.NewDecoder(4096, nil)} }
+func (m *mDec) SetMax(v uint32)     { m.d.SetMaxDynamicTableSize(v) }
+func (m *mDec) SetAllowed(v uint32) { m.d.SetAllowedMaxDynamicTableSize(v) }
 func (m *mDec) Decode(b []byte) ([]hf, error) {
 	fs, err := m.d.DecodeFull(b)
 	if err != nil {
@@ -116,9 +116,9 @@ func (m *mDec) Decode(b []byte) ([]hf, error) {
 
 type xDec struct{ d *xhpack.Decoder }
 
-func newXDec() *xDec                  { return &xDec{xhpack.NewDecoder(4096, nil)} }
-func (m *xDec) SetMax(v uint32)       { m.d.SetMaxDynamicTableSize(v) }
-func (m *xDec) SetAllowed(v uint32)   { m.d.SetAllowedMaxDynamicTableSize(v) }
+func newXDec() *xDec                { return &xDec{xhpack.NewDecoder(4096, nil)} }
+func (m *xDec) SetMax(v uint32)     { m.d.SetMaxDynamicTableSize(v) }
+func (m *xDec) SetAllowed(v uint32) { m.d.SetAllowedMaxDynamicTableSize(v) }
 func (m *xDec) Decode(b []byte) ([]hf, error) {
 	fs, err := m.d.DecodeFull(b)
 	if err != nil {
